@@ -65,6 +65,7 @@ extern "C" int LLVMFuzzerTestOneInput(const uint8_t *data, size_t size)
 	Script sc = from_bytes(data, size);
 	Options opt;
 	opt.trace = false;
+	opt.focus = g_prop;
 	Report r = run(sc, opt);
 	g_evals++;
 	bool nt = false;
